@@ -85,7 +85,7 @@ fn check_family(
     let e_glob = model::build_ok(e_text);
     let m_globs: Vec<Option<Glob<'_>>> = members.iter().map(|m| model::build_ok(&m.text)).collect();
     let strings = model::access_strings(&ex);
-    let mut violation: Option<(usize, bool, Vec<bool>)> = None;
+    let mut violation: Option<(String, bool, Vec<bool>)> = None;
     for (i, (t, len)) in ex.states.iter().enumerate() {
         let e_acc = automata::acc(&dfas, t, 0);
         let m_acc: Vec<bool> = (1..dfas.len()).map(|k| automata::acc(&dfas, t, k)).collect();
@@ -110,11 +110,36 @@ fn check_family(
             Law::IncludesAndEqualUpTo(n) => (union && !e_acc) || (*len <= n && e_acc && !union),
         };
         if bad && violation.is_none() {
-            violation = Some((i, e_acc, m_acc));
+            violation = Some((strings[i].clone(), e_acc, m_acc));
         }
     }
-    if let Some((i, e_acc, m_acc)) = violation {
-        let path = &strings[i];
+    // every other explored transition: the whole expression is replayed through the real matcher;
+    // where it answers differently from its automaton (a matcher that is not a function of the
+    // automaton state), the law is judged on that string with the real answers of every member
+    if let Some(g) = &e_glob {
+        for (from, ch, to) in ex.cross.iter() {
+            let (t, len) = &ex.states[*to as usize];
+            let mut s = strings[*from as usize].clone();
+            s.push(*ch);
+            bump(c, "traces_validated_against_impl", 1);
+            let e_real = g.is_match(s.as_str());
+            if e_real == automata::acc(&dfas, t, 0) {
+                continue;
+            }
+            bump(c, "binding_mismatches", 1);
+            let m_real: Vec<bool> = m_globs.iter().enumerate().map(|(k, g)| g.as_ref().map_or(automata::acc(&dfas, t, k + 1), |g| g.is_match(s.as_str()))).collect();
+            let union = m_real.iter().any(|x| *x);
+            let bad = match law {
+                Law::Equal => e_real != union,
+                Law::IncludesAndEqualUpTo(n) => (union && !e_real) || (*len <= n && e_real && !union),
+            };
+            if bad && violation.is_none() {
+                violation = Some((s, e_real, m_real));
+            }
+        }
+    }
+    if let Some((path, e_acc, m_acc)) = violation {
+        let path = &path;
         // confirm with the public API (twice)
         let real = |p: &str| -> (bool, Vec<bool>) {
             (
@@ -479,7 +504,18 @@ fn check_any(
     let ex = model::explore_counted(c, &dfas, &NoMonitor, &alphabet);
     bump(c, "any_families", 1);
     let strings = model::access_strings(&ex);
-    for (i, (t, _)) in ex.states.iter().enumerate() {
+    // all explored transitions: the BFS tree (one per state) and the cross edges
+    let edges: Vec<(String, usize)> = (0..ex.states.len())
+        .map(|i| (strings[i].clone(), i))
+        .chain(ex.cross.iter().map(|(from, ch, to)| {
+            let mut s = strings[*from as usize].clone();
+            s.push(*ch);
+            (s, *to as usize)
+        }))
+        .collect();
+    let strings: Vec<String> = edges.iter().map(|e| e.0.clone()).collect();
+    for (i, (_, to)) in edges.iter().enumerate() {
+        let t = &ex.states[*to].0;
         let a_acc = automata::acc(&dfas, t, 0);
         bump(c, "traces_validated_against_impl", 1);
         let real = any.is_match(strings[i].as_str());
